@@ -170,6 +170,15 @@ func (w *world) newTask(kind int, gate *simrt.Chan[struct{}]) *simTask {
 	return t
 }
 
+// foreignCtx is a Context implementation of the caller's own (same Done
+// channel, same error, no values): legal for tasklane.New, opaque to WithCancel.
+type foreignCtx struct{ inner simrt.Context }
+
+func (f foreignCtx) Deadline() (time.Time, bool) { return f.inner.Deadline() }
+func (f foreignCtx) Done() *simrt.Chan[struct{}] { return f.inner.Done() }
+func (f foreignCtx) Err() error                  { return f.inner.Err() }
+func (f foreignCtx) Value(any) any               { return nil }
+
 func (w *world) live() bool { return w.cancelSeq == 0 }
 
 // push calls PushTask and records the call in the ledger.
@@ -339,9 +348,18 @@ func (w *world) main() {
 			w.ctx, cancel = simrt.WithCancel(p)
 		}
 	}
+	if ch("cfg.foreign_ctx", 4) == 0 {
+		// the caller's own Context implementation: nothing derived from it can
+		// be cancelled in the same step, package context has to watch its Done
+		w.ctx = foreignCtx{w.ctx}
+		w.cfg["foreign_ctx"] = true
+		simrt.Probe("foreign_context")
+	}
 	simrt.GoNamed("watcher", "harness", func() {
 		w.ctx.Done().Recv()
-		w.cancelSeq = simrt.Note("cancel-observed", "")
+		if w.cancelSeq == 0 {
+			w.cancelSeq = simrt.Note("cancel-observed", "")
+		}
 	})
 	if ctxKind >= 4 {
 		simrt.Quiesce()
@@ -613,6 +631,17 @@ func (w *world) main() {
 	if w.live() {
 		simrt.Fault("ctx.cancel_at_end")
 		cancel()
+		// cancel() has returned: the context given to New is done from here on
+		if w.cancelSeq == 0 {
+			w.cancelSeq = simrt.Note("cancel-returned", "")
+		}
+		if ch("late.prompt", 2) == 0 {
+			// a push straight away, nothing has come to rest in between: whatever
+			// the lane derived from that context for itself may not have heard yet
+			simrt.Probe("push_right_after_cancel")
+			t := w.newTask(kRet, nil)
+			w.push(t, ch("late.lane", w.lanes), "main-prompt")
+		}
 	}
 	simrt.Quiesce()
 	if w.cancelSeq == 0 {
